@@ -128,3 +128,13 @@ check("C16", "exploration",
       "(interval <= 2*timeout) is listed.", TRUST + " Every timed wait overshoots its deadline by one tick (scheduling latency model).",
       "deterministic simulation: virtual-time grid with silent/slow peer faults and colliding traffic under a seeded two-thread scheduler, bound oracle",
       "DESIGN.md section 6 C16")
+check("C15", "exploration",
+      "run_forever(reconnect=r) against sequences of connection outcomes (refused, rejected, established then lost by "
+      "eof / reset / ping timeout, server close) with traffic on every established connection, close() from a callback or "
+      "from a second thread at a virtual time (incl. inside the back-off sleep), built-in loop and the SimRel stub, under "
+      "seeded schedules. Oracle from the network log and the callback trace: next attempt r..r+5 s after each observed "
+      "loss, repetition until success, on_reconnect/on_open + messages, no on_close in between, one live transport and "
+      "ping thread at a time, no attempt after a server close frame or close(). All outcome sequences up to length 3 "
+      "enumerated.", TRUST + " The external dispatcher is a stub following rel's documented contract.",
+      "deterministic simulation: connection-fault sequences in virtual time (minute-long back-offs cost microseconds), seeded scheduler, network-log oracle",
+      "DESIGN.md section 6 C15")
